@@ -456,7 +456,38 @@ func float64Case(t *mon.T) {
 	// decimals near float64 rounding boundaries: midpoints of adjacent floats
 	// +/- one unit in a far digit
 	var d dec.D
-	switch r.Pick(40, 25, 15, 20) {
+	switch r.Pick(40, 25, 15, 20, 12) {
+	case 4:
+		// the exact midpoint of two adjacent floats (a finite decimal of up to
+		// ~1075 digits), then a perturbation of one unit tens to thousands of
+		// digits further down: the tail decides the rounding and must not be lost
+		f := floatBits(r)
+		if math.IsNaN(f) || math.IsInf(f, 0) {
+			f = 1
+		}
+		f = math.Abs(f)
+		hi := math.Nextafter(f, math.Inf(1))
+		if math.IsInf(hi, 0) {
+			hi = f
+			f = math.Nextafter(f, 0)
+		}
+		mid := new(big.Rat).Add(new(big.Rat).SetFloat64(f), new(big.Rat).SetFloat64(hi))
+		mid.Quo(mid, big.NewRat(2, 1))
+		// mid = num/den with den = 2^e: exact decimal coefficient num*5^e, exponent -e
+		e := int64(mid.Denom().BitLen() - 1)
+		cf := new(big.Int).Mul(mid.Num(), new(big.Int).Exp(big.NewInt(5), big.NewInt(e), nil))
+		k := []int64{1, 5, 40, 300, 700, 1100, 2500}[r.Intn(7)]
+		cf.Mul(cf, dec.Pow10(k))
+		switch r.Intn(3) {
+		case 0:
+			cf.Add(cf, bOne)
+		case 1:
+			cf.Sub(cf, bOne)
+		}
+		d = dec.D{Form: dec.Finite, Neg: r.Bool(), C: cf, E: -e - k}
+		if d.E < gen.MinExp+10 {
+			d = dec.D{Form: dec.Finite, C: big.NewInt(15), E: -1}
+		}
 	case 0:
 		f := floatBits(r)
 		if math.IsNaN(f) || math.IsInf(f, 0) || f == 0 {
